@@ -335,8 +335,7 @@ func checkCrash(rec *Recorded, img crashImage, prop string) []Violation {
 	createAcked := img.Call >= 1
 	x := vrt.Run(vrt.Config{Sequential: true, MaxTicks: 100}, func() {
 		vfs.Cur = fsys
-		sod.LowercaseNames = cfg.Lower
-		vrt.MapReverse = cfg.MapRev
+		setGlobals(cfg)
 		db := sod.Open(dbRoot)
 		_, err := db.Schema(&Rec{})
 		cls := classify(err)
